@@ -334,9 +334,7 @@ fn expr_binding_power(
 		}
 
 		let m = m.precede(p);
-		let parsed_rhs = expr_binding_power(p, right_binding_power)
-			.map(|v| v.precede(p).complete(p, EXPR))
-			.is_ok();
+		let parsed_rhs = operand(p, right_binding_power);
 		lhs = m.complete(
 			p,
 			if op == BinaryOperatorKind::MetaObjectApply {
@@ -351,6 +349,18 @@ fn expr_binding_power(
 		}
 	}
 	Ok(lhs)
+}
+
+/// Operand of an unary or binary operator, returns false if there is none.
+/// `local` and `assert` are operands too, and extend as far as possible: `a * local b = 1; b + c`
+fn operand(p: &mut Parser, minimum_binding_power: u8) -> bool {
+	if p.at(T![local]) || p.at(T![assert]) {
+		expr(p);
+		return true;
+	}
+	expr_binding_power(p, minimum_binding_power)
+		.map(|v| v.precede(p).complete(p, EXPR))
+		.is_ok()
 }
 
 const COMPSPEC: SyntaxKindSet = TS![for if];
@@ -938,7 +948,7 @@ fn lhs_basic(p: &mut Parser) -> Result<CompletedMarker, CompletedMarker> {
 
 		let m = p.start();
 		p.bump();
-		let _ = expr_binding_power(p, right_binding_power).map(|v| v.precede(p).complete(p, EXPR));
+		operand(p, right_binding_power);
 		m.complete(p, EXPR_UNARY)
 	} else if p.at(T!['(']) {
 		let m = p.start();
